@@ -135,6 +135,7 @@ def _case(draw):
         case["flux"] = draw(gen.source(max(2, ny + dny), max(2, nx + dnx), kinds=("dense", "sparse")))
         # an emission map as it comes out of a single-precision file: both routes must treat it the same way
         case["flux_dtype"] = draw(st.sampled_from(["float64", "float64", "float64", "float32"]))
+    case["standalone_tower"] = draw(st.integers(0, 3)) == 0
     return case
 
 
@@ -206,7 +207,15 @@ def check_case(case):
         out.bad(f"tower local coordinates {txy} differ from the equirectangular formula {(x, y)}")
 
     import copy
+    import dataclasses
 
+    # the tower handed to the run: the configured object, or (one case in four) a stand-alone copy whose local
+    # coordinates were corrected by hand - the run takes the measurement point from the object it is given
+    tower_obj = cfg.towers[ti]
+    if case.get("standalone_tower"):
+        tower_obj = dataclasses.replace(tower_obj, x=txy[0] + 0.37 * float(d["xmax"]) / d["nx"], y=txy[1] - 1.25 * float(d["ymax"]) / d["ny"])
+        txy = (tower_obj.x, tower_obj.y)
+        out.label("standalone-tower-with-corrected-xy")
     cfg_before = copy.deepcopy(cfg)
     flux_before = None if flux is None else flux.copy()
     # every step of the series is run, in order, in this process (state kept between runs must not leak into a
@@ -214,7 +223,7 @@ def check_case(case):
     a = None
     for step in range(nt):
         try:
-            aj = run_bldfm_single(cfg, cfg.towers[ti], met_index=step, surface_flux=flux)
+            aj = run_bldfm_single(cfg, tower_obj, met_index=step, surface_flux=flux)
             ea = None
         except Exception as e:
             aj, ea = None, e
